@@ -127,7 +127,7 @@ from functools import wraps
 
 import jax.extend as jex
 import jax.tree_util as jtu
-from jax.extend.core import Jaxpr
+from jax.extend.core import ClosedJaxpr, Jaxpr
 from jax._src.util import safe_map, split_list
 from jax.lax import scan_p, scan
 
@@ -196,6 +196,30 @@ def _nested_dict_get(d, path):
             current[namespace] = {}
         current = current[namespace]
     return current
+
+
+# Call-like primitives whose body can be interpreted in place of the call.
+_INLINED_CALLS = ("pjit", "jit", "remat2", "checkpoint")
+
+
+def _holds_state(params: dict[str, Any]) -> bool:
+    """Whether a sub-Jaxpr held by an equation's `params` tags state, at any depth."""
+    stack = list(params.values())
+    while stack:
+        v = stack.pop()
+        if isinstance(v, (tuple, list)):
+            stack.extend(v)
+            continue
+        if isinstance(v, ClosedJaxpr):
+            v = v.jaxpr
+        if not isinstance(v, Jaxpr):
+            continue
+        for eqn in v.eqns:
+            primitive, _ = PPPrimitive.unwrap(eqn.primitive)
+            if primitive in (state_p, namespace_push_p, namespace_pop_p):
+                return True
+            stack.extend(eqn.params.values())
+    return False
 
 
 @dataclass
@@ -333,6 +357,16 @@ class State:
                 outvals = jtu.tree_leaves(
                     (flat_carry_out, scanned_out),
                 )
+
+            elif primitive.name in _INLINED_CALLS and _holds_state(eqn.params):
+                # A nested jax.jit / jax.checkpoint whose body tags state: binding
+                # the equation unchanged would evaluate the tags as identities and
+                # silently drop them, so interpret the body instead.
+                body = eqn.params["jaxpr"]
+                if isinstance(body, ClosedJaxpr):
+                    outvals = self.eval_jaxpr_state(body.jaxpr, body.consts, invals)
+                else:
+                    outvals = self.eval_jaxpr_state(body, [], invals)
 
             else:
                 # For all other primitives, use normal JAX evaluation
